@@ -460,6 +460,16 @@ func checkC08(p *Prog, r *Report) {
 		}
 	}
 
+	// D12 the string form of the AOL genesis keys splits back into its components: the separator occurs in no component
+	if sepC, ok := p.ConstVal(Rel(aolTypesPkg), "GenesisKeySeparator"); ok {
+		var sep string
+		fmt.Sscanf(sepC, "%q", &sep)
+		if len(sep) == 1 {
+			checkSeparatorOutsideComponents(p, r, kp, sep)
+		} else {
+			r.Fail(kp("CONST", "GenesisKeySeparator"), "the genesis key separator is a one-character constant", aolTypesPkg, "value "+sepC)
+		}
+	}
 	// D11 the application-level export parses foreign store keys with their owner's parser (rawkey.go, finding F15)
 	checkForeignKeysParsedByOwner(p, r, "C08")
 
